@@ -21,8 +21,8 @@ MANIFEST = dict(
     note='Mean character confidence is recomputed by a reference implementation of the documented definition (it agrees with get_line_confidence on every enumerated case of the unchanged tree); more than 3 engines / 2 lines are not explored.',
     ref='3/C19')
 
-TRANS = [None, '', 'ab', 'ba', 'b', 'bab']
-LOGITS = ['ab', 'ba', 'diffuse', 'bb', 'perchar', 'bab_leaky', 'perchar_off', 'ab_big32']
+TRANS = [None, '', 'ab', 'ba', 'b', 'bab', 'abb']
+LOGITS = ['ab', 'ba', 'diffuse', 'bb', 'perchar', 'bab_leaky', 'perchar_off', 'ab_big32', 'abb']
 ORDERS = [['a', 'b', '​'], ['b', 'a', '​']]
 BOUNDS = {'quick': dict(engines=3, three_engine_variants=26, two_line_variants=12),
           'thorough': dict(engines=3, three_engine_variants=10 ** 6, two_line_variants=20)}
@@ -97,7 +97,11 @@ def build_logits(kind, order, trans):
         # a very confident engine emitting float32 logits of large magnitude (beyond the exp() range of float32)
         seq = [col['a'], blank, col['b'], blank, blank]
         return np.asarray([row(s, hi=95.0, lo=-20.0) for s in seq], dtype=np.float32)
-    if kind in ('ab', 'ba', 'bb'):
+    if kind == 'abb':
+        # a doubled letter: frames a b - b -, the blank between the two b's cannot be skipped
+        seq = [col['a'], col['b'], blank, col['b'], blank]
+        M = [row(s) for s in seq]
+    elif kind in ('ab', 'ba', 'bb'):
         seq = [col[kind[0]], blank, col[kind[1]], blank, blank]
         M = [row(s) for s in seq]
     elif kind == 'diffuse':
@@ -138,6 +142,53 @@ def build_layout(engine_variants):
     return lay
 
 
+_BRUTE = {}
+
+
+def brute_positions(logp, labels, blank):
+    """independent forced alignment for the small matrices of this check: the best of ALL symbol paths that collapse to the labels, then for
+    every character its most confident frame.  None = no alignment exists; 'ambiguous' = several optimal paths (decided by the library)"""
+    T, C = logp.shape
+    if T > 7:
+        return 'ambiguous'
+    key = (logp.tobytes(), str(logp.dtype), tuple(labels), blank)
+    if key in _BRUTE:
+        return _BRUTE[key]
+    best, best_paths = None, []
+    for path in itertools.product(range(C), repeat=T):
+        col, prev = [], None
+        for sym in path:
+            if sym != prev and sym != blank:
+                col.append(sym)
+            prev = sym
+        if col != list(labels):
+            continue
+        c = float(sum(float(logp[t, sym]) for t, sym in enumerate(path)))
+        if best is None or c > best + 1e-9:
+            best, best_paths = c, [path]
+        elif abs(c - best) <= 1e-9:
+            best_paths.append(path)
+    if best is None:
+        res = None
+    elif len(best_paths) > 1:
+        res = 'ambiguous'
+    else:
+        path, res, k, prev = best_paths[0], [], -1, None
+        frames = [[] for _ in labels]
+        for t, sym in enumerate(path):
+            if sym != blank and sym != prev:
+                k += 1
+            if sym != blank:
+                frames[k].append(t)
+            prev = sym
+        conf = logp.max(axis=1)
+        res = [max(f, key=lambda t: (float(conf[t]), -t)) for f in frames]
+    if len(_BRUTE) > 5000:
+        _BRUTE.clear()
+    _BRUTE[key] = res
+    return res
+
+
 def ref_confidences(line):
     """reference implementation of the documented per-character confidence; None if the line has no characters"""
     from pero_ocr.core.force_alignment import align_text
@@ -151,9 +202,13 @@ def ref_confidences(line):
     P = np.exp(logp)
     if P.shape[0] == len(labels):
         return [float(P[i, l]) for i, l in enumerate(labels)]
-    try:
-        pos = [int(x) for x in align_text(-logp, np.asarray(labels), P.shape[1] - 1)]
-    except ValueError:
+    pos = brute_positions(logp, labels, P.shape[1] - 1)
+    if pos == 'ambiguous':
+        try:
+            pos = [int(x) for x in align_text(-logp, np.asarray(labels), P.shape[1] - 1)]
+        except ValueError:
+            pos = None
+    if pos is None:
         return [0.5] * len(labels)
     out, last = [], 0
     for i, l in enumerate(labels):
